@@ -169,6 +169,19 @@ class Stats:
 # ddmin
 # --------------------------------------------------------------------------
 
+_MIN_DEADLINE = [None]
+
+
+def set_min_budget(seconds):
+    """Wall-clock budget for one minimisation (all its passes together)."""
+    _MIN_DEADLINE[0] = None if seconds is None else time.monotonic() + seconds
+
+
+def min_expired():
+    d = _MIN_DEADLINE[0]
+    return d is not None and time.monotonic() > d
+
+
 def ddmin(items, test, max_tests=400, budget_s=90.0):
     """Classic delta debugging on a list.  `test(sublist)` -> True when the
     failure persists.  Returns a 1-minimal sublist (subject to max_tests and a
@@ -178,13 +191,16 @@ def ddmin(items, test, max_tests=400, budget_s=90.0):
     n = 2
     tests = 0
     t_end = time.monotonic() + budget_s
-    while len(items) >= 2 and tests < max_tests and time.monotonic() < t_end:
+    while len(items) >= 2 and tests < max_tests and time.monotonic() < t_end \
+            and not min_expired():
         chunk = max(1, len(items) // n)
         subsets = [items[i:i + chunk] for i in range(0, len(items), chunk)]
         reduced = False
         for i in range(len(subsets)):
             complement = [x for j, s in enumerate(subsets) if j != i for x in s]
             tests += 1
+            if min_expired():
+                break
             if test(complement):
                 items = complement
                 n = max(n - 1, 2)
